@@ -150,6 +150,13 @@ def _make_lease_publisher(world, script):
         def subscribe(self, subscriber):
             world.rec('pub', ep='endpoint', iid=None, role='lease', cb='subscribe', src='lease')
             for item in script:
+                if item.get('sync'):
+                    # a publisher that already has a lease emits it from inside subscribe()
+                    world.rec('pub', ep='endpoint', iid=None, role='lease', cb='emit', src='lease', n=item['n'], ttl_us=item['ttl_us'])
+                    subscriber.on_next(DefinedLease(maximum_request_count=item['n'],
+                                                    maximum_lease_time=timedelta(microseconds=item['ttl_us'])))
+                    continue
+
                 def emit(item=item):
                     world.rec('pub', ep='endpoint', iid=None, role='lease', cb='emit', src='lease', n=item['n'],
                               ttl_us=item['ttl_us'])
